@@ -244,9 +244,13 @@ func fingerprint(dir string, res api.BuildResult) (string, map[string]string) {
 		}
 		return p
 	}
+	var order []string
 	for _, f := range res.OutputFiles {
 		parts["file:"+rel(f.Path)] = hashStr(string(f.Contents)) + ":" + f.Hash
+		order = append(order, rel(f.Path))
 	}
+	// the order of BuildResult.OutputFiles (results are joined in entry point / chunk order)
+	parts["order"] = strings.Join(order, "\n")
 	parts["metafile"] = hashStr(res.Metafile)
 	mc, _ := json.Marshal(res.MangleCache)
 	parts["manglecache"] = string(mc)
@@ -321,6 +325,10 @@ var (
 )
 
 func gateFn(name, key string, gid int64) string {
+	if strings.HasPrefix(name, "link.") {
+		linkGate(name, key)
+		return ""
+	}
 	if name != "scan.send" {
 		return ""
 	}
@@ -886,7 +894,7 @@ func childFailed(r *core.Run, cr core.ChildResult, what string, key map[string]i
 }
 
 func Run(r *core.Run) {
-	r.Assume("arrival orders of parse results and (thorough) the race detector are controlled/observed; the inner print/rename/hash goroutine pools are only perturbed by GOMAXPROCS and repetition, not enumerated (DESIGN.md section 6)")
+	r.Assume("arrival orders of parse results, the schedules of the per-entry-point linkers around the exclusive section and of their log writes, and (thorough) the race detector are controlled/observed; the pools inside one linker (per chunk / part range / file) join by index (SlotJoin.tla) and are only perturbed by GOMAXPROCS, random link schedules and repetition, not enumerated (DESIGN.md section 6, design.d/C08.md)")
 	cfgs := []buildCfg{{Name: "bundle"}, {Name: "split-min-map-mangle", Splitting: true, Minify: true, SourceMap: true, MangleProps: true}}
 	exes := []string{""}
 	if r.Thorough() {
@@ -895,9 +903,15 @@ func Run(r *core.Run) {
 			exes = append(exes, race)
 		}
 	}
+	// developer switch: VERIF_C08_PARTS=link runs only the compile-phase parts (C), (D)
+	parts := os.Getenv("VERIF_C08_PARTS")
+	scanPart := parts == "" || strings.Contains(parts, "scan")
 	imposedTotal := 0
 	// (A) model graphs: every arrival order TLC finds, imposed on the real scan
 	gs := graphs()
+	if !scanPart {
+		gs = nil
+	}
 	allOrders := make([][][]string, len(gs))
 	core.Parallel(len(gs), 4, func(i int) { allOrders[i] = modelGraph(r, gs[i]) })
 	for gi, g := range gs {
@@ -947,6 +961,9 @@ func Run(r *core.Run) {
 	r.Set("arrival_orders_imposed", imposedTotal)
 	// (B) scaled scenarios
 	nsc := r.Pick(4, 24)
+	if !scanPart {
+		nsc = 0
+	}
 	kinds := []string{"js", "assets", "diag", "js"}
 	for i := 0; i < nsc; i++ {
 		in := scaledIn{Seed: r.Seed*7919 + int64(i), NFiles: []int{30, 60, 120, 200}[i%4], Cfg: cfgs[i%len(cfgs)], Repeats: r.Pick(4, 8), Procs: []int{1, 2, 5, 16}, Kind: kinds[i%len(kinds)]}
@@ -979,7 +996,13 @@ func Run(r *core.Run) {
 			}
 		}
 	}
-	r.Set("rule", "case = one (graph, config, imposed arrival order) or one scaled scenario (repeats + GOMAXPROCS sweep + imposed random orders + 3 absolute locations + concurrent siblings); non-trivial = at least 2 distinct arrival orders were actually imposed / at least 2 builds compared")
+	// (C) the compile phase: LinkPar.tla inputs x schedules imposed through the link.* gates,
+	// (D) scaled projects with 3-5 entry points without splitting under random link schedules,
+	// and the link.excl.* events of all those builds validated against LinkParTrace.tla
+	traces := runLinkPhase(r, exes)
+	traces = append(traces, runScaledLinkPhase(r, exes)...)
+	validateLinkTraces(r, traces)
+	r.Set("rule", "case = one (graph, config, imposed arrival order), one LinkPar input (per-entry mangled properties / local CSS names / error path / preset cache / renaming mode) replayed under its imposed link schedules, or one scaled scenario (repeats + GOMAXPROCS sweep + imposed random scan or link orders + other absolute locations + concurrent siblings); non-trivial = at least 2 distinct arrival orders were actually imposed (link inputs: at least 2 schedules imposed AND two linkers after the first write the shared state) / at least 2 builds compared")
 }
 
 func pick(m map[string]string, keys []string) map[string]string {
